@@ -34,7 +34,7 @@ def run_scc(case):
         r = topological_sort(iter(nodes), nb)
         return {"e": "ret", "fn": "topo", "status": r.status.name, "order": [ids[x] for x in r.solution] if r.solution is not None else []}
     guard("topo", topo)
-    if m == n:
+    if True:      # condense also with neighbours outside the node set (C14's domain)
         def cond():
             r = condense(iter(nodes), nb)
             cn, ad = r.solution
@@ -42,7 +42,7 @@ def run_scc(case):
             return {"e": "ret", "fn": "condense", "status": r.status.name, "comps": [sorted(ids[x] for x in c) for c in cn],
                     "adj": [[pos[s] for s in ad[c]] for c in cn], "nkeys": len(ad)}
         guard("condense", cond)
-
+    if m == n:
         def scce():
             r = strongly_connected_components_edges(n, [tuple(e) for e in case["edges"]], backend="python")
             return {"e": "ret", "fn": "scc_edges", "status": r.status.name, "comps": [[int(x) for x in c] for c in r.solution]}
